@@ -809,7 +809,8 @@ func (w *World) writeOnce(g *ssa.Global) bool {
 	}
 	res := true
 	pkg := g.Pkg
-	if pkg == nil {
+	if pkg == nil || pkg.Pkg == nil || !strings.HasPrefix(pkg.Pkg.Path(), "go.universe.tf/metallb") {
+		// only variables of this module are considered (every loaded package of the module is scanned below)
 		w.writeOnceC[g] = false
 		return false
 	}
@@ -845,15 +846,28 @@ func (w *World) writeOnce(g *ssa.Global) bool {
 			scan(a)
 		}
 	}
-	for _, m := range pkg.Members {
-		switch x := m.(type) {
-		case *ssa.Function:
-			scan(x)
-		case *ssa.Type:
-			for _, t := range []types.Type{x.Type(), types.NewPointer(x.Type())} {
-				ms := w.prog.MethodSets.MethodSet(t)
-				for i := 0; i < ms.Len(); i++ {
-					scan(w.prog.MethodValue(ms.At(i)))
+	var paths []string
+	for path := range w.ssaPkgs {
+		if strings.HasPrefix(path, "go.universe.tf/metallb") {
+			paths = append(paths, path)
+		}
+	}
+	sort.Strings(paths)
+	for _, path := range paths {
+		sp := w.ssaPkgs[path]
+		if path != pkg.Pkg.Path() && !g.Object().Exported() {
+			continue // an unexported variable can only be named by its own package
+		}
+		for _, m := range sp.Members {
+			switch x := m.(type) {
+			case *ssa.Function:
+				scan(x)
+			case *ssa.Type:
+				for _, t := range []types.Type{x.Type(), types.NewPointer(x.Type())} {
+					ms := w.prog.MethodSets.MethodSet(t)
+					for i := 0; i < ms.Len(); i++ {
+						scan(w.prog.MethodValue(ms.At(i)))
+					}
 				}
 			}
 		}
